@@ -31,6 +31,9 @@ Alphabet (d in {"O","I"}; E = the endpoint that sends in direction d, P = its pe
                               pending; "w" = the older ones were lost or are acked late) [dev], "n" none although some
                               are pending [dev]; drop=1: the proxy (an addon) drops it [dev] (sel in -,a,o,n)
   ("pack", d, sel)            E sends a standalone PacketAck for "a"ll / "o"ldest-only [dev] / ne"w"est-only [dev]
+  ("packmix", d, split)       E sends ONE PacketAck that uses both ack forms: every way to spread its <=3 pending receipts
+                              over the Packets blocks (b), the appended acks (p) or both (x), neither part empty
+                              [dev, weight 2]
   ("rtx", d, drop)            E retransmits its oldest own unacked reliable packet: same ID, RESENT flag [dev]
   ("inj", d, rel)             the proxy injects a packet travelling in direction d (reliable iff rel)
   ("T", k)                    virtual time passes: "past" = one resend interval + one poll (0.1 s), "short" = one interval
@@ -156,8 +159,8 @@ def enc_data(pid: int, flags: int, tag: int, acks) -> bytes:
                            "blocks": [("Info", [{"TeleportFlags": tag}])]})
 
 
-def enc_packetack(pid: int, ids) -> bytes:
-    return refwire.encode({"name": "PacketAck", "flags": 0, "packet_id": pid, "acks": [],
+def enc_packetack(pid: int, ids, appended=()) -> bytes:
+    return refwire.encode({"name": "PacketAck", "flags": F_ACK if appended else 0, "packet_id": pid, "acks": list(appended),
                            "blocks": [("Packets", [{"ID": i} for i in ids])]})
 
 
@@ -517,6 +520,15 @@ def _orders(window: List[int]) -> List[str]:
     return out
 
 
+def _splits(k: int) -> List[str]:
+    """Every way to spread k pending receipts over a PacketAck's body ("b"), its appended acks ("p") or both ("x"),
+    with neither part empty."""
+    out = [""]
+    for _ in range(k):
+        out = [o + c for o in out for c in "bpx"]
+    return [o for o in out if set(o) & set("bx") and set(o) & set("px")]
+
+
 def _select(window: List[int], sel: str) -> List[int]:
     if sel == "a":
         return list(window)
@@ -574,6 +586,8 @@ class Harness:
                     evs.append(("snd", d, rel, sel, 1))
             for sel in orders:
                 evs.append(("snd", d, 1, sel, 1))      # dropped packet whose piggy-backed acks are not ascending
+            for split in _splits(npend):
+                evs.append(("packmix", d, split))
             if npend >= 2:
                 evs.append(("pack", d, "o"))
                 evs.append(("pack", d, "w"))
@@ -606,7 +620,7 @@ class Harness:
             return 1 if ev[2] in ("o", "w", "d", "r") else 0
         if k == "rtx":
             return 1
-        if k in ("take", "ping"):
+        if k in ("take", "ping", "packmix"):
             return 2      # rare events weigh double: a history holds at most one of them plus one ordinary deviation
         if k == "T":
             return 0 if ev[1] == "past" else 1
@@ -658,6 +672,8 @@ class Harness:
                 self._endpoint_packet(w, ev[1], "data", bool(ev[2]), ev[3], bool(ev[4]), rtx=False)
             elif kind == "pack":
                 self._endpoint_packet(w, ev[1], "ack", False, ev[2], False, rtx=False)
+            elif kind == "packmix":
+                self._endpoint_packet(w, ev[1], "ack", False, "a", False, rtx=False, mix=ev[2])
             elif kind == "rtx":
                 self._endpoint_packet(w, ev[1], "data", True, "-", bool(ev[2]), rtx=True)
             elif kind == "take":
@@ -753,13 +769,19 @@ class Harness:
 
     # endpoint E (sending in direction d) puts one datagram on the wire; the proxy forwards or drops it
     def _endpoint_packet(self, w: World, d: str, what: str, rel: bool, sel: str, drop: bool, rtx: bool,
-                         take: Optional[str] = None):
+                         take: Optional[str] = None, mix: Optional[str] = None):
         E, P = w.ep[d], w.ep[OTHER[d]]
         window = E.pending[:WINDOW] if what != "ping" else []
         acks = _select(window, sel)
+        body, appendix = acks, []
+        if mix:
+            # one PacketAck datagram using both ack forms: ids marked b/x go into the Packets blocks, p/x are appended
+            body = [a for a, c in zip(window, mix) if c in "bx"]
+            appendix = [a for a, c in zip(window, mix) if c in "px"]
+            acks = body + appendix          # every instance is an acknowledgement E puts on the wire
         if what == "ack" and not acks:
             raise ValueError("PacketAck event without pending acks")
-        for a in acks:
+        for a in set(acks):
             E.pending.remove(a)
         peer_acks, inj_acks = [], []
         for a in acks:
@@ -785,7 +807,7 @@ class Harness:
             # OldestUnacked: its oldest unacked reliable packet ("u") or, idle, the id its NEXT packet will carry ("n")
             data = enc_ping(n, n, E.own_unacked[0] if sel == "u" else E.next_id)
         else:
-            data = enc_packetack(n, acks)
+            data = enc_packetack(n, body, appendix)
 
         for key in inj_acks:                       # the receiving endpoint's ack is about to enter the proxy
             inj = w.inj[key]
@@ -902,6 +924,8 @@ class Harness:
             fl.append("take-" + take)
         if what == "ping":
             fl.append("ping-" + sel)
+        if mix:
+            fl.append("packetack-both-forms")
         w.flags = tuple(fl)
 
     def _judge_copy_acks(self, w: World, X: Endpoint, xdir: str, g: Dg, delivered: List[int], ctx: str):
